@@ -33,6 +33,10 @@ all_installed_repos; the stub domain only has pm_tmpdir); block-level torn write
 modelled (vf.crash granularity); binpkg replace only for the same cpv (as pkgcore itself does).
 The old binpkg gets an mtime in the past (a package is not replaced within the second it was
 written) so that the 1 s granularity of the Packages cache validation is not what is tested here.
+
+Bucket keys: `<repo>:<op>:<verdict>@<event>:<role of path>[-><role of path2>]:<mode>`; roles: root, catdir,
+old / new / pkg (old==new) entry, tmp (the install staging name), hidden-* (any other .tmp.* name), Packages,
+bystander; `/FILE` = something inside.  Development aid: VF_C29_ONLY="vdb:install,binpkg:replace" limits the plan.
 """
 import bz2
 import hashlib
@@ -43,7 +47,7 @@ from types import SimpleNamespace
 
 from hypothesis import strategies as st
 
-from .. import core, crash, fsx
+from .. import core, crash
 
 ID = "C29"
 TITLE = "Package database updates are crash-consistent"
